@@ -210,3 +210,20 @@ def class_pairs(rng, fam, k, n):
             if idx % n == k:
                 yield a, b
             idx += 1
+
+
+_CRC32C_TABLE = []
+
+
+def crc32c(data):
+    """CRC-32C (Castagnoli), as PP2_TYPE_CRC32C prescribes (reflected polynomial 0x82F63B78)"""
+    if not _CRC32C_TABLE:
+        for i in range(256):
+            c = i
+            for _ in range(8):
+                c = (c >> 1) ^ 0x82F63B78 if c & 1 else c >> 1
+            _CRC32C_TABLE.append(c)
+    c = 0xFFFFFFFF
+    for b in data:
+        c = _CRC32C_TABLE[(c ^ b) & 255] ^ (c >> 8)
+    return c ^ 0xFFFFFFFF
